@@ -86,14 +86,14 @@ Section Gen.
 Variable src : srcp.
 Variable c : cfg.
 
-Lemma ok_res_dec : okA (res_dec c).
+Lemma ok_res_dec : okA (res_dec src c).
 Proof.
-  intros s. unfold res_dec. destruct (c_max_retries c =? 0); cbn [fst snd]; [apply R_refl|].
+  intros s. unfold res_dec. destruct (res_off src c); cbn [fst snd]; [apply R_refl|].
   unfold R, m3, count_gauge, count_log, count_destroy, count. cbn. split; intros H; [split|left; split]; auto.
 Qed.
-Lemma ok_res_inc : okA (res_inc c).
+Lemma ok_res_inc : okA (res_inc src c).
 Proof.
-  intros s. unfold res_inc. destruct (c_max_retries c =? 0); cbn [fst snd]; [apply R_refl|].
+  intros s. unfold res_inc. destruct (res_off src c); cbn [fst snd]; [apply R_refl|].
   unfold R, m3, count_gauge, count_log, count_destroy, count. cbn. split; intros H; [split|left; split]; auto.
 Qed.
 Lemma ok_rs_reset : okA (rs_reset src c).
@@ -136,7 +136,7 @@ Proof.
   split; intros H; [congruence|]. right. split; auto.
 Qed.
 
-Lemma ok_hijack code body : okA (hijack src code body). Proof. unfold hijack. ok_auto. Qed.
+Lemma ok_hijack code body : okA (hijack src c code body). Proof. unfold hijack. ok_auto. Qed.
 Lemma ok_direct_response code : okA (direct_response code). Proof. unfold direct_response. ok_auto. Qed.
 Lemma ok_on_up_reset why : okA (on_up_reset why). Proof. unfold on_up_reset. ok_auto. Qed.
 Lemma ok_on_down_reset why : okA (on_down_reset why). Proof. unfold on_down_reset. ok_auto. Qed.
@@ -153,11 +153,11 @@ Lemma ok_rs_retry code why s :
 Proof.
   unfold rs_retry. pose proof (ok_rs_reset s) as H0. destruct (rs_reset src c s) as [s1 o1]. cbn [fst snd] in H0.
   destruct (retry s1) as [[|n]|]; cbn [fst snd]; auto.
-  destruct (negb (retry_check c code why)); cbn [fst snd].
+  destruct (negb (retry_check src c code why (s1 <| retry := Some n |>))); cbn [fst snd].
   - eapply R_trans with (o2 := []) in H0; [rewrite app_nil_r in H0; exact H0|]. apply R_of_eq; reflexivity.
   - destruct (negb (can_create c (s1 <| retry := Some n |>))); cbn [fst snd].
     + eapply R_trans with (o2 := []) in H0; [rewrite app_nil_r in H0; exact H0|]. apply R_of_eq; reflexivity.
-    + pose proof (ok_res_inc (s1 <| retry := Some n |>)) as H2. destruct (res_inc c (s1 <| retry := Some n |>)) as [s3 o3].
+    + pose proof (ok_res_inc (s1 <| retry := Some n |>)) as H2. destruct (res_inc src c (s1 <| retry := Some n |>)) as [s3 o3].
       cbn [fst snd] in *. eapply R_trans; [exact H0|].
       eapply R_trans with (s1 := s1 <| retry := Some n |>) (o1 := []); [apply R_of_eq; reflexivity|].
       eapply R_trans with (o2 := []) in H2; [rewrite app_nil_r in H2; exact H2|]. apply R_of_eq; reflexivity.
@@ -167,9 +167,9 @@ Lemma ok_on_upstream_reset why : okA (on_upstream_reset src c why).
 Proof.
   intros s. unfold on_upstream_reset.
   assert (Htail : okA (clean_up src c ;; ite resp_started (ds_reset_stream c)
-                         (upd (fun s0 => s0 <| up_reset := false |>) ;; hijack src (reason_code src why) false))).
+                         (upd (fun s0 => s0 <| up_reset := false |>) ;; hijack src c (reason_code src why) false))).
   { pose proof ok_clean_up. pose proof ok_ds_reset_stream. pose proof (ok_hijack (reason_code src why) false). ok_auto. }
-  destruct (negb (reason_eqb why RsGlobalTimeout) && negb (resp_started s) && match retry s with Some _ => true | None => false end).
+  destruct ((negb (reset_excludes_global src) || negb (reason_eqb why RsGlobalTimeout)) && negb (resp_started s) && match retry s with Some _ => true | None => false end).
   - pose proof (ok_rs_retry None why s) as H0. destruct (rs_retry src c None why s) as [[s1 o1] r]. cbn [fst snd] in H0.
     destruct r.
     + assert (H1 : okA (setup_retry_act src true ;; upd (fun s0 => s0 <| up_reset := false |>))).
@@ -274,7 +274,7 @@ Proof.
   assert (H1 : okA (upd (fun s0 => s0 <| scalls := incr_nth (scalls s0) i |>) ;; emit (OFilterSend i v) ;;
                     match v with
                     | VTerm => upd (fun s0 => s0 <| reuse := false |>) ;; clean_stream src c
-                    | VHijack => hijack src (sf_code f) false
+                    | VHijack => hijack src c (sf_code f) false
                     | VDirect => direct_response (sf_code f)
                     | _ => ret
                     end)).
@@ -322,7 +322,7 @@ Proof.
   - apply ok_hijack.
   - apply H.
   - destruct (c_nhosts c =? 0)%nat.
-    + assert (H1 : okA (emit OChoose ;; hijack src 502 false)) by ok_auto. apply H1.
+    + assert (H1 : okA (emit OChoose ;; hijack src c 502 false)) by ok_auto. apply H1.
     + assert (H1 : okA (emit OChoose ;; upd (fun s0 => s0 <| retry := Some (budget src c) |> <| reserved := false |> <| has_upreq := true |>))) by ok_auto.
       apply H1.
 Qed.
@@ -364,7 +364,9 @@ Proof.
   assert (Htail : okA (upd (fun s0 => s0 <| resp_started := true |>) ;; (if e then recv_finished src c else ret) ;; down_append_headers src c e r)).
   { pose proof ok_recv_finished. pose proof (ok_down_append_headers e r). ok_auto. }
   destruct (retry s); [|apply Htail].
-  pose proof (ok_rs_retry (Some (r_code r)) RsEmpty s) as H0. destruct (rs_retry src c (Some (r_code r)) RsEmpty s) as [[s1 o1] rs].
+  match goal with |- context [rs_retry src c (Some (r_code r)) RsEmpty ?x] => set (s' := x) end.
+  assert (Hs : forall o t, R s' o t -> R s o t) by (intros o t H; exact H). apply Hs. clear Hs.
+  pose proof (ok_rs_retry (Some (r_code r)) RsEmpty s') as H0. destruct (rs_retry src c (Some (r_code r)) RsEmpty s') as [[s1 o1] rs].
   cbn [fst snd] in H0. destruct rs.
   - pose proof (ok_setup_retry_act e s1) as H1. destruct (setup_retry_act src e s1) as [s2 o2]. cbn [fst snd] in *. eapply R_trans; eauto.
   - assert (H1 : okA (rs_reset src c ;; upd (fun s0 => s0 <| resp_started := true |>) ;; (if e then recv_finished src c else ret) ;; down_append_headers src c e r)).
@@ -442,8 +444,10 @@ Proof.
   { unfold X. destruct (timers_reset_stream src); [apply Hr|]. intros s0. cbn. split; auto. tauto. }
   destruct e as [k st d t|k r|k| |r|code|]; cbn [env_step]; fold X.
   - destruct ((k =? cur s)%nat && up_sender s && up_alive s && negb (c_oneway c)); [|cbn; split; auto; tauto].
-    destruct (process_done_b (s <| up_alive := false |>) || setup_retry (s <| up_alive := false |>)); [cbn; split; auto; tauto|].
-    destruct (received (s <| up_alive := false |>)); cbn; split; auto; tauto.
+    cbn zeta. match goal with |- context [process_done_b ?x] => set (s1 := x) end.
+    assert (Hc1 : cleaned s1 = cleaned s) by reflexivity.
+    destruct (process_done_b s1 || setup_retry s1); [cbn; split; auto; tauto|].
+    destruct (received s1); cbn; split; auto; tauto.
   - destruct ((k =? cur s)%nat && up_sender s && up_alive s); [|cbn; split; auto; tauto].
     destruct (Hu r (s <| up_alive := false |> <| abandoned := true |>)) as [H1 H2]. rewrite H1, H2. cbn. split; auto; tauto.
   - destruct (try_armed s) as [k'|]; [|cbn; split; auto; tauto].
@@ -520,28 +524,28 @@ Proof. intros. apply env_no_down_gen. Qed.
 
 (* the reply generated for an upstream reset carries the reason's code *)
 Theorem reset_reason_code : forall src c why s,
-  resp_started s = false -> (why = RsGlobalTimeout \/ retry s = None) ->
+  resp_started s = false -> ((why = RsGlobalTimeout /\ reset_excludes_global src = true) \/ retry s = None) ->
   let '(s', _) := on_upstream_reset src c why s in
   (exists d o, rsp s' = Some {| r_kind := KHijack; r_code := reason_code src why; r_data := d; r_trailers := false; r_body := o |}) /\ direct s' = true.
 Proof.
   intros src c why s Hs Hw. unfold on_upstream_reset.
-  assert (E : negb (reason_eqb why RsGlobalTimeout) && negb (resp_started s) && match retry s with Some _ => true | None => false end = false).
-  { destruct Hw as [->| ->]; cbn; auto. now rewrite andb_false_r. }
+  assert (E : (negb (reset_excludes_global src) || negb (reason_eqb why RsGlobalTimeout)) && negb (resp_started s) && match retry s with Some _ => true | None => false end = false).
+  { destruct Hw as [[-> Hx]| ->]; [rewrite Hx; cbn; auto|now rewrite andb_false_r]. }
   rewrite E. unfold aseq.
   assert (Hc : resp_started (fst (clean_up src c s)) = false).
   { unfold clean_up, aseq, when, upd. destruct (retry s); cbn [fst snd]; auto.
     unfold rs_reset. destruct (reset_guarded src).
-    - unfold when. destruct (reserved s); cbn [fst snd]; auto. unfold aseq, res_dec, upd. destruct (c_max_retries c =? 0); cbn; auto.
-    - unfold res_dec. destruct (c_max_retries c =? 0); cbn; auto. }
+    - unfold when. destruct (reserved s); cbn [fst snd]; auto. unfold aseq, res_dec, upd. destruct (res_off src c); cbn; auto.
+    - unfold res_dec. destruct (res_off src c); cbn; auto. }
   destruct (clean_up src c s) as [s1 o1]. cbn [fst] in Hc. unfold ite. rewrite Hc. cbn. split; auto. eexists; eexists; reflexivity.
 Qed.
 
 (* doRetryCheck *)
 Theorem retry_check_response : forall c code,
-  retry_check c (Some code) RsEmpty = true <->
+  retry_rule c (Some code) RsEmpty = true <->
   c_retry_on c = true /\ ((c_codes c = [] /\ 500 <= code) \/ (c_codes c <> [] /\ In code (c_codes c))).
 Proof.
-  intros c code. unfold retry_check. cbn [reason_eqb]. destruct (c_retry_on c); [|split; [discriminate|intros [H _]; discriminate]].
+  intros c code. unfold retry_rule. cbn [reason_eqb]. destruct (c_retry_on c); [|split; [discriminate|intros [H _]; discriminate]].
   destruct (c_codes c) as [|z l] eqn:E.
   - rewrite Z.leb_le. split; [intros H; split; auto|intros [_ [[_ H]|[H _]]]; auto; congruence].
   - split.
@@ -550,63 +554,88 @@ Proof.
 Qed.
 
 Theorem retry_check_reset : forall c why,
-  retry_check c None why = true <->
+  retry_rule c None why = true <->
   why <> RsOverflow /\ (why = RsConnFailed \/ (c_retry_on c = true /\ (why = RsPerTryTimeout \/ why = RsTermination))).
 Proof.
-  intros c why. unfold retry_check. destruct why; cbn [reason_eqb]; destruct (c_retry_on c); cbn; split; intros H;
+  intros c why. unfold retry_rule. destruct why; cbn [reason_eqb]; destruct (c_retry_on c); cbn; split; intros H;
     try discriminate; try (split; [discriminate|]; auto 6); try tauto;
     destruct H as [H1 [H2|[H3 [H4|H4]]]]; try discriminate; try congruence; auto.
 Qed.
+
+(* where the status comes from.  A RESET is judged by its reason alone - whatever an earlier attempt left in the request context -
+   when doRetryCheck does not consult the status mapping for resets (every flavour), or when the mapping reads the headers *)
+Theorem retry_reset_by_reason_only : forall src c why s,
+  reset_reads_status src = false \/ c_http c = false -> retry_check src c None why s = retry_rule c None why.
+Proof. intros src c why s [H|H]; unfold retry_check, mapped_status; rewrite H; [rewrite andb_false_r|]; reflexivity. Qed.
+(* a RESPONSE is judged by its own status when the mapping reads the headers; for the HTTP flavour (status read from the context
+   variable) see the family statement on [x_stale] *)
+Theorem retry_response_by_own_status : forall src c z why s,
+  c_http c = false -> retry_check src c (Some z) why s = retry_rule c (Some z) why.
+Proof. intros src c z why s H. unfold retry_check, mapped_status. rewrite H. reflexivity. Qed.
+Theorem retry_response_http : forall src c z why s,
+  c_http c = true -> status_var s = Some z -> retry_check src c (Some z) why s = retry_rule c (Some z) why.
+Proof. intros src c z why s H Hv. unfold retry_check, mapped_status. rewrite H, Hv. reflexivity. Qed.
 
 Theorem budget_def : forall src c, budget src c = Nat.max (min_budget src) (c_num_retries c).
 Proof. reflexivity. Qed.
 
 (* ---------- retry(): admission against the Retries resource ---------- *)
 Theorem retry_threshold : forall src c code why s n,
-  0 < c_max_retries c -> retry s = Some (S n) -> retry_check c code why = true -> 0 <= rc s -> reserved s = false ->
+  0 < c_max_retries c -> retry s = Some (S n) -> retry_check src c code why s = true -> 0 <= rc s -> reserved s = false ->
   reset_guarded src = true ->
   let '(s', o, r) := rs_retry src c code why s in
   (rc s < c_max_retries c -> r = RShould /\ rc s' = rc s + 1 /\ reserved s' = true) /\
   (c_max_retries c <= rc s -> r = ROver /\ rc s' = rc s /\ reserved s' = false).
 Proof.
   intros src c code why s n Hm Hr Hc H0 Hres Hg. unfold rs_retry, rs_reset. rewrite Hg. unfold when. rewrite Hres.
-  rewrite Hr, Hc. cbn [negb].
+  rewrite Hr. change (retry_check src c code why (s <| retry := Some n |>)) with (retry_check src c code why s). rewrite Hc. cbn [negb].
   unfold can_create. cbn [rc]. change (rc (s <| retry := Some n |>)) with (rc s).
   assert (E0 : (c_max_retries c =? 0) = false) by (apply Z.eqb_neq; lia).
   assert (E1 : (rc s <? 0) = false) by (apply Z.ltb_ge; lia).
   rewrite E0, E1. cbn [orb].
   destruct (rc s <? c_max_retries c) eqn:E2; cbn [negb].
-  - apply Z.ltb_lt in E2. unfold res_inc. rewrite E0. cbn. split; [intros _; auto|intros; lia].
+  - apply Z.ltb_lt in E2. unfold res_inc, res_off. rewrite E0. cbn. split; [intros _; auto|intros; lia].
   - apply Z.ltb_ge in E2. cbn. split; [intros; lia|intros _; auto].
 Qed.
 
 Theorem retry_should_spec : forall src c code why s,
   let '(s', _, r) := rs_retry src c code why s in
-  r = RShould -> retry_check c code why = true /\ exists n, retry s = Some (S n) /\ retry s' = Some n.
+  r = RShould -> retry_check src c code why s = true /\ exists n, retry s = Some (S n) /\ retry s' = Some n.
 Proof.
   intros src c code why s. unfold rs_retry.
   assert (Hk : retry (fst (rs_reset src c s)) = retry s).
   { unfold rs_reset. destruct (reset_guarded src).
-    - unfold when. destruct (reserved s); auto. unfold aseq, res_dec, upd. destruct (c_max_retries c =? 0); reflexivity.
-    - unfold res_dec. destruct (c_max_retries c =? 0); reflexivity. }
-  destruct (rs_reset src c s) as [s1 o1]. cbn [fst] in Hk.
+    - unfold when. destruct (reserved s); auto. unfold aseq, res_dec, upd. destruct (res_off src c); reflexivity.
+    - unfold res_dec. destruct (res_off src c); reflexivity. }
+  assert (Hv : status_var (fst (rs_reset src c s)) = status_var s).
+  { unfold rs_reset. destruct (reset_guarded src).
+    - unfold when. destruct (reserved s); auto. unfold aseq, res_dec, upd. destruct (res_off src c); reflexivity.
+    - unfold res_dec. destruct (res_off src c); reflexivity. }
+  destruct (rs_reset src c s) as [s1 o1]. cbn [fst] in Hk, Hv.
   destruct (retry s1) as [[|n]|] eqn:E; try discriminate.
-  destruct (negb (retry_check c code why)) eqn:Ec; [discriminate|].
+  assert (Hq : retry_check src c code why (s1 <| retry := Some n |>) = retry_check src c code why s).
+  { unfold retry_check, mapped_status. change (status_var (s1 <| retry := Some n |>)) with (status_var s1). rewrite Hv. reflexivity. }
+  rewrite Hq.
+  destruct (negb (retry_check src c code why s)) eqn:Ec; [discriminate|].
   destruct (negb (can_create c (s1 <| retry := Some n |>))); [discriminate|].
-  unfold res_inc. destruct (c_max_retries c =? 0); intros _; (split; [now apply negb_false_iff in Ec|exists n; rewrite <- Hk; auto]).
+  unfold res_inc. destruct (res_off src c); intros _; (split; [now apply negb_false_iff in Ec|exists n; rewrite <- Hk; auto]).
 Qed.
 
 Theorem global_timeout_not_retried : forall src c s,
-  resp_started s = false ->
-  let '(s', _) := on_upstream_reset src c RsGlobalTimeout s in setup_retry s' = setup_retry s /\ direct s' = true.
+  reset_excludes_global src = true -> resp_started s = false ->
+  let '(s', _) := on_upstream_reset src c RsGlobalTimeout s in
+  setup_retry s' = setup_retry s /\ direct s' = true /\ nnew s' = nnew s /\
+  exists d o, rsp s' = Some {| r_kind := KHijack; r_code := reason_code src RsGlobalTimeout; r_data := d; r_trailers := false; r_body := o |}.
 Proof.
-  intros src c s Hs. unfold on_upstream_reset. cbn [reason_eqb negb andb]. unfold aseq.
-  assert (Hc : resp_started (fst (clean_up src c s)) = false /\ setup_retry (fst (clean_up src c s)) = setup_retry s).
+  intros src c s Hx Hs. unfold on_upstream_reset. rewrite Hx. cbn [reason_eqb negb andb orb]. unfold aseq.
+  assert (Hc : resp_started (fst (clean_up src c s)) = false /\ setup_retry (fst (clean_up src c s)) = setup_retry s /\
+               nnew (fst (clean_up src c s)) = nnew s).
   { unfold clean_up, aseq, when, upd. destruct (retry s); cbn [fst snd]; auto.
     unfold rs_reset. destruct (reset_guarded src).
-    - unfold when. destruct (reserved s); cbn [fst snd]; auto. unfold aseq, res_dec, upd. destruct (c_max_retries c =? 0); cbn; auto.
-    - unfold res_dec. destruct (c_max_retries c =? 0); cbn; auto. }
-  destruct (clean_up src c s) as [s1 o1]. cbn [fst] in Hc. destruct Hc as [Hc1 Hc2]. unfold ite. rewrite Hc1. cbn. auto.
+    - unfold when. destruct (reserved s); cbn [fst snd]; auto. unfold aseq, res_dec, upd. destruct (res_off src c); cbn; auto.
+    - unfold res_dec. destruct (res_off src c); cbn; auto. }
+  destruct (clean_up src c s) as [s1 o1]. cbn [fst] in Hc. destruct Hc as [Hc1 [Hc2 Hc3]]. unfold ite. rewrite Hc1. cbn.
+  repeat split; auto. eexists; eexists; reflexivity.
 Qed.
 
 (* ---------- the pooled filter-chain object ---------- *)
